@@ -63,6 +63,9 @@ def enum_cells(tier):
             yield dict(lib=lib, cell=name)
 
 
+_WORKED = False
+
+
 def other_work():
     """something else the process did before looking at the library: it simulated an edited netlist in which the last input line of some
     3- and 4-input gates had been removed again. (What those gates compute is not judged here; the library cells afterwards are.)"""
@@ -76,16 +79,34 @@ def other_work():
     c = bench.parse(txt)
     for n in list(c.cells.values()):
         if n.name.startswith('y') and n.kind not in ('input', 'output') and len(n.ins) >= 3:
-            n.ins[len(n.ins) - 1].remove()
+            if n.ins[len(n.ins) - 1] is not None:
+                n.ins[len(n.ins) - 1].remove()
     sim = LogicSim(c, 4, m=2)
     sim.s_to_c(); sim.c_prop(); sim.c_to_s()
+    # ... and it parsed netlists whose text happens to be that of library cells and edited them (its own objects, not the library's)
+    import re
+    from kyupy.circuit import Node
+    for lib, src in sorted(lib_sources().items()):
+        entries = [re.sub(r'^\s+', '', e) for e in re.split(r';\s+', src)]
+        for e in entries[3::max(1, len(entries) // 12)]:
+            k = e.find(' ')
+            if k <= 0:
+                continue
+            for text in (e[k:], ' '.join(e[k:].split())):
+                mine = bench.parse(text)
+                for n in list(mine.cells.values()):
+                    if n.kind not in ('input', 'output') and len(n.ins) >= 1 and n.ins[0] is not None:
+                        n.ins[0].remove()
+                Node(mine, 'scribble', 'inv')
 
 
 def prop(case):
     import kyupy.techlib as tl
     from kyupy.logic_sim import LogicSim
     lib, name = case['lib'], case['cell']
-    if sum(map(ord, name)) % 8 == 0:
+    global _WORKED
+    if sum(map(ord, name)) % 8 == 0 and not _WORKED:       # once per worker process, before the first such cell
+        _WORKED = True
         other_work()
     tlib = getattr(tl, lib)
     exp = expected_cells(lib)
